@@ -278,6 +278,20 @@ func Programs() []*Program {
 	return out
 }
 
+// IsCoincidingLetProgram reports whether p is one of the `let N = 7; <query>` programs of the corpus (the same
+// query occurs without the let; sweeps that multiply the corpus by edits may skip these in their quick tier).
+func IsCoincidingLetProgram(p *Program) bool {
+	if len(p.Stmts) < 2 {
+		return false
+	}
+	l, ok := p.Stmts[len(p.Stmts)-2].(*Let)
+	if !ok {
+		return false
+	}
+	lit, ok := l.X.(*Lit)
+	return ok && lit.Text == "7"
+}
+
 func opName(op Op) string {
 	switch op.(type) {
 	case *Count:
